@@ -471,3 +471,67 @@ class Ctx:
     def close(self):
         if self._driver is not None:
             self._driver.close()
+
+
+# ----------------------------------------------------------------------------- stressors shared by the harnesses
+# Recurring themes of changes that escaped first versions of the checks (DESIGN.md 0.5): behaviour depending on the
+# sparse layout left behind by earlier reads, on caches keyed by object identity, on ID text (fixed-width arrays),
+# on sizes, on process-level state, on aliasing between derived tables.
+def poke_layout(t, rng, max_reads=2):
+    """leave the table in a random internal layout by a few read-only accessor calls; returns what was done"""
+    done = []
+    if t.shape[0] == 0 or t.shape[1] == 0:
+        return done
+    obs = t.ids(axis="observation")
+    samp = t.ids()
+    for _ in range(rng.randint(0, max_reads)):
+        c = rng.choice(["data_samp", "data_obs", "iter_samp", "iter_obs", "nnz", "cell", "sum", "str"])
+        try:
+            if c == "data_samp":
+                t.data(rng.choice(list(samp)), axis="sample")
+            elif c == "data_obs":
+                t.data(rng.choice(list(obs)), axis="observation")
+            elif c == "iter_samp":
+                list(t.iter(axis="sample"))
+            elif c == "iter_obs":
+                list(t.iter(axis="observation"))
+            elif c == "nnz":
+                t.nnz
+            elif c == "cell":
+                t.get_value_by_ids(rng.choice(list(obs)), rng.choice(list(samp)))
+            elif c == "sum":
+                t.sum("sample")
+            else:
+                str(t)
+            done.append(c)
+        except Exception as e:  # a read that raises is the caller's business to notice
+            done.append(c + "!" + type(e).__name__)
+    return done
+
+
+def tricky_unknown_ids(ids):
+    """texts that are NOT in `ids` but look like members: extensions, prefixes, case variants, blanks"""
+    have = set(str(i) for i in ids)
+    out = []
+    for i in list(have)[:4]:
+        for cand in (i + "0", i + " ", " " + i, i + "x", i[:-1], i.upper(), i.lower(), i + i):
+            if cand and cand not in have and cand not in out:
+                out.append(cand)
+    longest = max([len(i) for i in have], default=1)
+    for i in list(have)[:2]:
+        cand = i + "_" * (longest + 2)
+        if cand not in have:
+            out.append(cand)
+    return out
+
+
+def wide_spec(rng, n_axis=None, other=None, axis="sample", classes=("count",), md=False):
+    """a table with many IDs on one axis (size-dependent fast paths: thresholds such as 64 IDs)"""
+    n_axis = n_axis or rng.choice([64, 70, 100, 130])
+    other = other or rng.choice([2, 3, 4])
+    n, m = (other, n_axis) if axis == "sample" else (n_axis, other)
+    obs = ["O%d" % i for i in range(n)]
+    samp = ["S%d" % i for i in range(m)]
+    return {"obs": obs, "samp": samp, "rows": gen_grid(rng, n, m, 0.6, classes),
+            "omd": gen_md(rng, obs, "text") if md else None, "smd": gen_md(rng, samp, "text") if md else None,
+            "type": None}
